@@ -14,6 +14,7 @@ import h2.config
 import h2.connection
 import h2.events
 import h2.exceptions
+import h2.settings
 
 from vf.sansio import Peer
 
@@ -27,17 +28,24 @@ class H2Request:
 
 
 class H2ClientPeer(Peer):
-    def __init__(self, requests, cut=None):
+    def __init__(self, requests, cut=None, initial_window=None, grant=None, validate_inbound=True):
+        """initial_window: SETTINGS_INITIAL_WINDOW_SIZE announced to the proxy (tiny values create send back-pressure in the proxy).
+        grant: callable(owed:int) -> list of positive increments summing to <= owed; every increment becomes its own WINDOW_UPDATE
+        frame in its own segment (a slow reader that opens its stream window a few bytes at a time). None = acknowledge at once."""
         super().__init__()
         self.requests = list(requests)
         self.cut = cut  # callable(bytes) -> list of segments, or None (one segment per flush)
+        self.initial_window = initial_window
+        self.grant = grant
+        self.owed = {}
+        self.window_updates = 0
         self.h2 = h2.connection.H2Connection(
             config=h2.config.H2Configuration(
                 client_side=True,
                 header_encoding=False,
                 validate_outbound_headers=False,
                 normalize_outbound_headers=False,
-                validate_inbound_headers=True,
+                validate_inbound_headers=validate_inbound,
             )
         )
         self.streams = {}
@@ -49,6 +57,8 @@ class H2ClientPeer(Peer):
     # -- Peer API
     def on_open(self):
         self.h2.initiate_connection()
+        if self.initial_window is not None:
+            self.h2.update_settings({h2.settings.SettingCodes.INITIAL_WINDOW_SIZE: self.initial_window})
         for rq in self.requests:
             sid = self.h2.get_next_available_stream_id()
             self.stream_ids.append(sid)
@@ -74,7 +84,10 @@ class H2ClientPeer(Peer):
                 self.streams[ev.stream_id]["informational"].append([(bytes(n), bytes(v)) for n, v in ev.headers])
             elif isinstance(ev, h2.events.DataReceived):
                 self.streams[ev.stream_id]["data"] += ev.data
-                self.h2.acknowledge_received_data(ev.flow_controlled_length, ev.stream_id)
+                if self.grant is None:
+                    self.h2.acknowledge_received_data(ev.flow_controlled_length, ev.stream_id)
+                else:
+                    _slow_grant(self, ev.stream_id, ev.flow_controlled_length)
             elif isinstance(ev, h2.events.StreamEnded):
                 self.streams[ev.stream_id]["ended"] = True
             elif isinstance(ev, h2.events.StreamReset):
@@ -111,3 +124,104 @@ class H2ClientPeer(Peer):
             return
         for seg in (self.cut(out) if self.cut else [out]):
             self.send(seg)
+
+
+def _slow_grant(peer, stream_id, n):
+    """Re-open the connection window at once and the stream window in the increments chosen by peer.grant, one WINDOW_UPDATE
+    frame per segment (so the scheduler can interleave them with data arriving at the proxy from the other side)."""
+    if n <= 0:
+        return
+    peer._flush()
+    try:
+        peer.h2.increment_flow_control_window(n)
+    except h2.exceptions.ProtocolError:
+        return
+    peer._flush()
+    owed = peer.owed.get(stream_id, 0) + n
+    for inc in peer.grant(owed):
+        if inc <= 0 or inc > owed:
+            break
+        try:
+            peer.h2.increment_flow_control_window(inc, stream_id=stream_id)
+        except h2.exceptions.ProtocolError:  # stream already closed
+            owed = 0
+            break
+        owed -= inc
+        peer.window_updates += 1
+        out = peer.h2.data_to_send()
+        if out and not peer.got_eof:
+            peer.send(out)
+    peer.owed[stream_id] = owed
+
+
+class H2ServerPeer(Peer):
+    """In-memory HTTP/2 origin (h2 library, server side).  Set conn.alpn = b"h2" in the server_factory before returning it.
+    responder(stream_id, headers, body) -> (response_headers, response_body) is called when a request stream has ended.
+    After the run: peer.streams[sid] = {"headers", "data", "ended", "reset"}."""
+
+    def __init__(self, responder, initial_window=None, grant=None):
+        super().__init__()
+        self.responder = responder
+        self.initial_window = initial_window
+        self.grant = grant
+        self.owed = {}
+        self.window_updates = 0
+        self.h2 = h2.connection.H2Connection(
+            config=h2.config.H2Configuration(
+                client_side=False,
+                header_encoding=False,
+                validate_outbound_headers=False,
+                normalize_outbound_headers=False,
+                validate_inbound_headers=False,
+            )
+        )
+        self.streams = {}
+        self.protocol_errors = []
+        self.send_errors = []
+        self.terminated = None
+
+    def on_open(self):
+        self.h2.initiate_connection()
+        if self.initial_window is not None:
+            self.h2.update_settings({h2.settings.SettingCodes.INITIAL_WINDOW_SIZE: self.initial_window})
+        self._flush()
+
+    def on_data(self, data: bytes):
+        try:
+            events = self.h2.receive_data(data)
+        except h2.exceptions.ProtocolError as e:
+            self.protocol_errors.append(repr(e))
+            self._flush()
+            return
+        for ev in events:
+            if isinstance(ev, h2.events.RequestReceived):
+                self.streams[ev.stream_id] = {"headers": [(bytes(n), bytes(v)) for n, v in ev.headers], "data": b"", "ended": False, "reset": None}
+            elif isinstance(ev, h2.events.DataReceived):
+                self.streams[ev.stream_id]["data"] += ev.data
+                if self.grant is None:
+                    self.h2.acknowledge_received_data(ev.flow_controlled_length, ev.stream_id)
+                else:
+                    _slow_grant(self, ev.stream_id, ev.flow_controlled_length)
+            elif isinstance(ev, h2.events.StreamEnded):
+                st = self.streams[ev.stream_id]
+                st["ended"] = True
+                ans = self.responder(ev.stream_id, st["headers"], st["data"])
+                if ans is not None:
+                    hdrs, body = ans
+                    try:
+                        self.h2.send_headers(ev.stream_id, hdrs, end_stream=not body)
+                        if body:
+                            self.h2.send_data(ev.stream_id, body, end_stream=True)
+                    except h2.exceptions.ProtocolError as e:
+                        self.send_errors.append(repr(e))  # our own answer could not be sent (stream/connection already closed)
+            elif isinstance(ev, h2.events.StreamReset):
+                if ev.stream_id in self.streams:
+                    self.streams[ev.stream_id]["reset"] = int(ev.error_code)
+            elif isinstance(ev, h2.events.ConnectionTerminated):
+                self.terminated = (int(ev.error_code), bytes(ev.additional_data or b""))
+        self._flush()
+
+    def _flush(self):
+        out = self.h2.data_to_send()
+        if out and not self.got_eof:
+            self.send(out)
